@@ -1,0 +1,216 @@
+//! Read-only inspector (only compiled with `--cfg flurry_verif`).
+//!
+//! Nothing in here is traced, takes a lock or writes to the map.
+#![allow(missing_docs)]
+
+use super::*;
+use crate::verif::{BinDump, Dump, NodeDump, TableDump, TreeLinks};
+
+/// upper bound on the nodes walked per bin, so that a corrupted (cyclic) bin cannot hang the inspector
+const WALK_LIMIT: usize = 1 << 20;
+
+unsafe fn dump_node<'a, K, V>(
+    addr: *mut Linked<BinEntry<K, V>>,
+    node: &'a Node<K, V>,
+    tree: Option<TreeLinks>,
+) -> NodeDump<'a, K, V> {
+    let value = node.value.verif_raw();
+    NodeDump {
+        addr: addr as usize,
+        hash: node.hash,
+        key: &node.key,
+        value_addr: value as usize,
+        value: value.as_ref().map(|l| &**l),
+        next: node.next.verif_raw() as usize,
+        locked: node.lock.is_locked(),
+        tree,
+    }
+}
+
+unsafe fn dump_tree_node<'a, K, V>(
+    addr: *mut Linked<BinEntry<K, V>>,
+) -> Option<NodeDump<'a, K, V>> {
+    match **addr {
+        BinEntry::TreeNode(ref tn) => Some(dump_node(
+            addr,
+            &tn.node,
+            Some(TreeLinks {
+                parent: tn.parent.verif_raw() as usize,
+                left: tn.left.verif_raw() as usize,
+                right: tn.right.verif_raw() as usize,
+                prev: tn.prev.verif_raw() as usize,
+                red: tn.red.load(Ordering::SeqCst),
+            }),
+        )),
+        BinEntry::Node(ref n) => Some(dump_node(addr, n, None)),
+        _ => None,
+    }
+}
+
+unsafe fn dump_table<'a, K, V>(t: *mut Linked<Table<K, V>>) -> TableDump<'a, K, V> {
+    let table: &'a Table<K, V> = &**t;
+    let moved_addr = table.verif_moved().verif_raw() as usize;
+    let mut bins = Vec::with_capacity(table.len());
+    for bin in table.verif_bins() {
+        let head = bin.verif_raw();
+        if head.is_null() {
+            bins.push(BinDump::Empty);
+            continue;
+        }
+        bins.push(match **head {
+            BinEntry::Moved => BinDump::Moved,
+            BinEntry::TreeNode(_) => BinDump::Invalid {
+                addr: head as usize,
+            },
+            BinEntry::Node(_) => {
+                let mut nodes = Vec::new();
+                let mut p = head;
+                let mut truncated = false;
+                while !p.is_null() {
+                    if nodes.len() >= WALK_LIMIT {
+                        truncated = true;
+                        break;
+                    }
+                    match dump_tree_node(p) {
+                        Some(n) => {
+                            p = n.next as *mut _;
+                            nodes.push(n);
+                        }
+                        None => {
+                            truncated = true;
+                            break;
+                        }
+                    }
+                }
+                BinDump::List {
+                    addr: head as usize,
+                    nodes,
+                    truncated,
+                }
+            }
+            BinEntry::Tree(ref tb) => {
+                let mut nodes = Vec::new();
+                let mut seen = std::collections::HashSet::new();
+                let mut truncated = false;
+                let first = tb.first.verif_raw();
+                let root = tb.root.verif_raw();
+                let mut p = first;
+                while !p.is_null() {
+                    if nodes.len() >= WALK_LIMIT || !seen.insert(p as usize) {
+                        truncated = true;
+                        break;
+                    }
+                    match dump_tree_node(p) {
+                        Some(n) => {
+                            p = n.next as *mut _;
+                            nodes.push(n);
+                        }
+                        None => {
+                            truncated = true;
+                            break;
+                        }
+                    }
+                }
+                let mut tree_only = Vec::new();
+                let mut visited = std::collections::HashSet::new();
+                let mut stack = vec![root];
+                while let Some(p) = stack.pop() {
+                    if p.is_null() {
+                        continue;
+                    }
+                    if visited.len() >= WALK_LIMIT {
+                        truncated = true;
+                        break;
+                    }
+                    if !visited.insert(p as usize) {
+                        // a node reachable twice through child links: reported through the
+                        // links themselves, do not loop
+                        continue;
+                    }
+                    match dump_tree_node(p) {
+                        Some(n) => {
+                            if let Some(ref l) = n.tree {
+                                stack.push(l.left as *mut _);
+                                stack.push(l.right as *mut _);
+                            }
+                            if !seen.contains(&(p as usize)) {
+                                tree_only.push(n);
+                            }
+                        }
+                        None => truncated = true,
+                    }
+                }
+                BinDump::Tree {
+                    addr: head as usize,
+                    locked: tb.lock.is_locked(),
+                    lock_state: tb.lock_state.verif_peek(),
+                    root: root as usize,
+                    first: first as usize,
+                    waiter: tb.waiter.verif_raw() as usize,
+                    nodes,
+                    tree_only,
+                    truncated,
+                }
+            }
+        });
+    }
+    TableDump {
+        addr: t as usize,
+        moved_addr,
+        next_table: table.verif_next_table().verif_raw() as usize,
+        bins,
+    }
+}
+
+impl<K, V, S> HashMap<K, V, S> {
+    /// Snapshot of the whole structure, read without any synchronisation.
+    ///
+    /// # Safety
+    /// No other thread may free memory of this map while the snapshot is taken or used
+    /// (all other threads are suspended, or the map is quiescent).
+    pub unsafe fn verif_dump(&self) -> Dump<'_, K, V> {
+        let t = self.table.verif_raw();
+        let nt = self.next_table.verif_raw();
+        Dump {
+            table: if t.is_null() {
+                None
+            } else {
+                Some(dump_table(t))
+            },
+            next_table: if nt.is_null() {
+                None
+            } else {
+                Some(dump_table(nt))
+            },
+            size_ctl: self.size_ctl.verif_peek(),
+            transfer_index: self.transfer_index.verif_peek(),
+            count: self.count.verif_peek(),
+            collector: &self.collector as *const Collector as usize,
+        }
+    }
+
+    /// The resize stamp for a table of `n` bins, as used in `size_ctl`.
+    pub fn verif_resize_stamp(n: usize) -> isize {
+        Self::resize_stamp(n)
+    }
+
+    /// `(RESIZE_STAMP_SHIFT, RESIZE_STAMP_BITS, MAX_RESIZERS, MAXIMUM_CAPACITY)`
+    pub fn verif_constants() -> (usize, usize, isize, usize) {
+        (
+            RESIZE_STAMP_SHIFT,
+            RESIZE_STAMP_BITS,
+            MAX_RESIZERS,
+            MAXIMUM_CAPACITY,
+        )
+    }
+}
+
+impl<T, S> crate::HashSet<T, S> {
+    /// See [`HashMap::verif_dump`].
+    ///
+    /// # Safety
+    /// As for [`HashMap::verif_dump`].
+    pub unsafe fn verif_dump(&self) -> Dump<'_, T, ()> {
+        self.map.verif_dump()
+    }
+}
